@@ -42,6 +42,17 @@ class MyBytes(bytes):
     pass
 
 
+class Liar(object):
+    """an object whose __class__ attribute misreports its type (as mocks and transparent wrappers do)"""
+
+    def __init__(self, cls):
+        object.__setattr__(self, "_cls", cls)
+
+    @property
+    def __class__(self):
+        return object.__getattribute__(self, "_cls")
+
+
 def rand_text(rnd, n):
     pools = [(0x20, 0x7e), (0xa0, 0x7ff), (0x800, 0xd7ff), (0x10000, 0x10ffff), (0xd800, 0xdfff), (0, 0x1f)]
     out = []
@@ -99,7 +110,8 @@ def rand_plain(rnd, depth=0):
 def rand_nonplain(rnd):
     k = rnd.randrange(12)
     base = [[1, 2], {"a": 1}, {1, 2}, bytearray(b"x"), object(), MyInt(5), MyStr("s"), MyTuple((1, 2)), MyBytes(b"b"),
-            lambda: 0, int, sys, range(3), memoryview(b"ab")]
+            lambda: 0, int, sys, range(3), memoryview(b"ab"), Liar(int), Liar(type(None)), Liar(bool), Liar(float), Liar(str),
+            Liar(bytes), Liar(tuple), Liar(frozenset), Liar(slice), Liar(complex)]
     x = rnd.choice(base)
     if k < 5:
         return x
